@@ -175,17 +175,50 @@ fn gen_pathset(rng: &mut Rng) -> Vec<(String, bool)> {
 }
 
 pub fn gen_scn(rng: &mut Rng, k: usize, with_faults: bool) -> Scn {
+	if with_faults && k % 8 == 3 {
+		// directed: a registered path switches its recursion mode while (re-)registering it fails, in a settled history
+		let p = (*rng.pick(&["a", "b", "a/c"])).to_string();
+		let m = rng.chance(1, 2);
+		let mut first = gen_pathset(rng);
+		first.retain(|x| x.0 != p);
+		first.push((p.clone(), m));
+		let mut second = first.clone();
+		second.last_mut().unwrap().1 = !m;
+		let mut ops = vec![(When::Idle, Op::PathSet(first)), (When::Idle, Op::PathSet(second))];
+		if rng.chance(1, 2) {
+			ops.push((When::Idle, Op::PathSet(gen_pathset(rng))));
+		}
+		let attempts = match rng.below(3) {
+			0 => vec![1],
+			1 => vec![1, 2],
+			_ => vec![1, 2, 3],
+		};
+		let mut fail = vec![(p.clone(), false, attempts)];
+		if rng.chance(1, 3) {
+			fail.push((p, true, vec![0]));
+		}
+		return Scn { ops, fail };
+	}
 	let n = 1 + rng.usize(4);
 	let mut ops = vec![];
 	for i in 0..n {
+		let prev_set = ops.iter().rev().find_map(|(_, o): &(When, Op)| if let Op::PathSet(v) = o { Some(v.clone()) } else { None });
 		let op = match rng.below(10) {
+			// the same paths with a recursion mode flipped
+			0 if prev_set.as_ref().map_or(false, |v| !v.is_empty()) => {
+				let mut v = prev_set.unwrap();
+				let j = rng.usize(v.len());
+				v[j].1 = !v[j].1;
+				Op::PathSet(v)
+			}
 			0..=4 => Op::PathSet(gen_pathset(rng)),
 			5 | 6 => Op::Kind(if rng.chance(1, 2) { None } else { Some(*rng.pick(&[50u64, 100])) }),
 			7 => Op::Throttle(*rng.pick(&[0u64, 10, 50])),
 			8 => Op::Keyboard(rng.chance(1, 2)),
 			_ => Op::ReplaceErrorHandler,
 		};
-		let when = if i == 0 {
+		let when = if i == 0 || k % 4 == 1 {
+			// every fourth scenario is a settled history: each change is issued after the previous one was applied
 			When::Idle
 		} else {
 			match (k + i) % 7 {
@@ -212,7 +245,12 @@ pub fn gen_scn(rng: &mut Rng, k: usize, with_faults: bool) -> Scn {
 	let mut fail = vec![];
 	if with_faults {
 		for _ in 0..rng.usize(3) {
-			fail.push(((*rng.pick(&["a", "b", "a/c"])).to_string(), rng.chance(1, 3), vec![rng.usize(2)]));
+			let attempts = match rng.below(4) {
+				0 | 1 => vec![rng.usize(2)],
+				2 => vec![1, 2],
+				_ => vec![0, 1, 2, 3],
+			};
+			fail.push(((*rng.pick(&["a", "b", "a/c"])).to_string(), rng.chance(1, 3), attempts));
 		}
 	}
 	Scn { ops, fail }
@@ -285,6 +323,7 @@ struct Outcome {
 	instances: usize,
 	errors_seen: usize,
 	hash: u64,
+	settled: usize,
 }
 
 fn apply(config: &Arc<Config>, base: &Path, op: &Op, errs: &Arc<ErrLog>) {
@@ -381,6 +420,7 @@ fn run_scn(scn: &Scn, base: &Path) -> Outcome {
 		let mut violations: Vec<(String, String)> = vec![];
 		let mut inconclusive = None;
 		let mut threads = vec![];
+		let mut settled_histories = 0usize;
 
 		let settle = |rec: &Arc<Mutex<Rec>>| {
 			let rec = rec.clone();
@@ -405,6 +445,7 @@ fn run_scn(scn: &Scn, base: &Path) -> Outcome {
 		};
 
 		let mut send_trigger = 0u64;
+		let mut idle_marks: Vec<u64> = vec![];
 		for (i, (when, op)) in scn.ops.iter().enumerate() {
 			// a change to be issued from inside a watcher call is armed *before* the change that causes the calls
 			if let Some((When::InsideCall(n), nop)) = scn.ops.get(i + 1) {
@@ -428,6 +469,7 @@ fn run_scn(scn: &Scn, base: &Path) -> Outcome {
 			match when {
 				When::Idle => {
 					settle(&rec).await;
+					idle_marks.push(mono_ns());
 					do_it();
 				}
 				When::BackToBack => do_it(),
@@ -557,6 +599,43 @@ fn run_scn(scn: &Scn, base: &Path) -> Outcome {
 			}
 		}
 
+		// ---- one registration attempt per path and configuration change ("once per attempt") --------
+		// Decided on settled histories only (every change issued after the previous one was applied, so the calls
+		// between two marks belong to one change): within one change a path is passed to watch() at most once per
+		// watcher instance, unless it was unwatched in between (recursion-mode switch).
+		if scn.ops.iter().all(|(w, _)| *w == When::Idle) && idle_marks.len() == scn.ops.len() {
+			let r = rec.lock().unwrap();
+			for (si, t0) in idle_marks.iter().enumerate() {
+				let t1 = idle_marks.get(si + 1).copied().unwrap_or(u64::MAX);
+				let mut seen: BTreeMap<(usize, String), bool> = BTreeMap::new(); // (inst, path) -> did an attempt fail
+				for (t, e) in r.log.iter().filter(|(t, _)| *t > *t0 && *t <= t1) {
+					let _ = t;
+					match e {
+						WEv::Watch { inst, path, failed, .. } => {
+							if let Some(prev_failed) = seen.get(&(*inst, path.clone())) {
+								violations.push((
+									"C13/path-registered-twice-in-one-change".into(),
+									format!("watch({}) was called twice on watcher #{inst} while applying one configuration change (no unwatch in between)", short(path)),
+								));
+								if *failed && *prev_failed {
+									violations.push((
+										"C15/watch-error/one-failed-registration-reported-twice".into(),
+										format!("one configuration change made two failing watch({}) attempts: the error handler hears about one failed registration twice", short(path)),
+									));
+								}
+							}
+							seen.insert((*inst, path.clone()), *failed);
+						}
+						WEv::Unwatch { inst, path, .. } => {
+							seen.remove(&(*inst, path.clone()));
+						}
+						_ => {}
+					}
+				}
+			}
+			settled_histories = 1;
+		}
+
 		// ---- runtime errors: exactly one per injected failure, naming the path ----------------------
 		tokio::time::sleep(Duration::from_millis(20)).await;
 		let recs = errs.recs.lock().unwrap().clone();
@@ -612,7 +691,7 @@ fn run_scn(scn: &Scn, base: &Path) -> Outcome {
 		if ended.is_err() {
 			violations.push(("C13/main-stuck".into(), "the main task did not end within 10 s of the quit".into()));
 		}
-		(violations, inconclusive, recs.len())
+		(violations, inconclusive, recs.len(), settled_histories)
 	});
 	watchexec::sources::fs::verif::set_factory(None);
 	rt.shutdown_timeout(Duration::from_millis(200));
@@ -636,6 +715,7 @@ fn run_scn(scn: &Scn, base: &Path) -> Outcome {
 		watch_calls: r.log.iter().filter(|(_, e)| matches!(e, WEv::Watch { .. } | WEv::Unwatch { .. })).count(),
 		instances: r.instances.len(),
 		errors_seen: out.2,
+		settled: out.3,
 		hash: f.finish(),
 	}
 }
@@ -680,6 +760,7 @@ pub fn run_one(prop: &str, args: &ShardArgs, rng: &mut Rng, rep: &mut Report, k:
 	rep.count("watch_unwatch_calls", out.watch_calls as u64);
 	rep.count("watcher_instances", out.instances as u64);
 	rep.count("watcher_errors_at_handler", out.errors_seen as u64);
+	rep.count("settled_histories_judged_for_once_per_attempt", out.settled as u64);
 	if let Some(r) = out.inconclusive {
 		rep.inconclusive(&r);
 	}
